@@ -390,7 +390,8 @@ class Charge:
         """Convert into a `DataArray` object."""
         import xarray as xr
 
-        data_2d: np.ndarray = self.array
+        # Get a copy: 'self._array' is modified in place when charges are added
+        data_2d: np.ndarray = np.array(self.array)
         num_rows, num_cols = data_2d.shape
 
         rows = xr.DataArray(
